@@ -13,8 +13,9 @@
 (* symbolic, so that the real result can be checked against the real       *)
 (* input without the spec knowing any concrete string:                     *)
 (*      "sec"          a map whose children are cells of their own         *)
-(*      "cl"           the client list; its first element is the pseudo    *)
-(*                     section cl0 (steps 4, 6, 19, 22 edit the elements)  *)
+(*      "cl"           the client list; its elements are the pseudo        *)
+(*                     sections cl0, cl1, cl2 (steps 4, 6, 19, 22 map over *)
+(*                     the elements)                                       *)
 (*      "lit:<yaml>"   this literal (the spec branches on a few of them)   *)
 (*      "src:<key>"    whatever the INPUT document holds at <key>          *)
 (*      "<f>:<value>"  a value built by a step from another value          *)
